@@ -31,6 +31,11 @@ def run_variant(v):
         if r.returncode == 2:
             return v["name"], "broken", (r.stderr or r.stdout)[-600:]
         keys = re.findall(r"^REPORT (.*?) at \S+: ", r.stdout, re.M)
+        if v["expect"] is None:
+            # behaviour-preserving refactor: any report is a false alarm of the checker
+            if keys:
+                return v["name"], "falsealarm", "reported keys: %s" % keys[:4]
+            return v["name"], "silent", "no report on an equivalent refactor"
         hit = [k for k in keys if re.search(v["expect"], k)]
         if hit:
             return v["name"], "detected", hit[0]
@@ -48,10 +53,10 @@ def main():
     bad = 0
     for name, st, info in res:
         print("SELFTEST %-9s %s %s" % (st, name, info))
-        if st in ("missed", "broken"):
+        if st in ("missed", "broken", "falsealarm"):
             bad += 1
-    print("selftest: %d variants, %d detected, %d skipped, %d not detected" % (len(res), sum(1 for r in res if r[1] == "detected"),
-          sum(1 for r in res if r[1] == "skipped"), bad))
+    print("selftest: %d variants, %d detected, %d silent on equivalent refactors, %d skipped, %d wrong" % (len(res), sum(1 for r in res if r[1] == "detected"),
+          sum(1 for r in res if r[1] == "silent"), sum(1 for r in res if r[1] == "skipped"), bad))
     return 2 if bad else 0
 
 
